@@ -269,7 +269,9 @@ PROPS["C15"] = {
     "engine": "E6 tcpmon",
     "technique": "conservation/ordering monitor over real loopback TCP (every packet tagged with client id and counter; per-ufrag reads must equal what was addressed to that ufrag, in per-client order, with the client's address; tagged replies must return on the sender's socket), hostile-client disconnection check, post-Close census of listener, client connections, mux goroutines and file descriptors; race detector on",
     "level_text": "1-4 ufrags (one optionally registered only after a client named it: adoption of the provisional connection), 1-12 concurrent clients of kinds good / unknown ufrag / garbage / non-Binding STUN / no USERNAME / oversized first frame / slow-loris / connect-and-close, "
-                  "first frame split across writes, with and without write buffering, optionally through MultiTCPMuxDefault; handle Close and RemoveConnByUfrag before mux Close.",
+                  "first frame split across writes, with and without write buffering, optionally through MultiTCPMuxDefault; handle Close and RemoveConnByUfrag before mux Close. "
+                  "Every 8th history is a directed one: 2-3 overlapping or back-to-back Close calls with silent clients parked in handleConn (each returning Close is followed by an immediate goroutine census with no grace period), "
+                  "or the life of a provisional connection: claimed by GetConnByUfrag with clients attaching before and after the claim and traffic exchanged 3x the alive duration later, or left unclaimed while a client reconnects to it every 0.6x alive (must be gone after 15x alive).",
     "level_note": "Timeouts are 120/150 ms and the verdict bound for 'must be disconnected' is 20x that; loopback TCP and the scheduler decide the interleavings.",
     "rule": "case = one mux lifetime with its clients; distinct_nontrivial counts distinct (#ufrags, late registration, #clients, wrapper, set of client kinds) classes",
     "assumptions": ["loopback TCP works in the sandbox"],
